@@ -70,6 +70,10 @@ IterAdmissibleB(obs, ks) ==
   ELSE IF TypeErr(k) THEN obs # <<>> /\ obs[1] = "type" /\ IterAdmissibleB(Tail(obs), Tail(ks))
   ELSE IF UnknownAlias(k) THEN obs # <<>> /\ obs[1] = "syntax" /\ (Tail(obs) = <<>> \/ IterAdmissibleB(Tail(obs), Tail(ks)))
   ELSE obs = <<"syntax">>
+(* the same stream read as pairs of integers: only "V" fits; every other document that scans is a type error, several  *)
+(* of them noticed on a look-ahead (a surplus element, the end of a sequence that is too short)                       *)
+TupleKind(k) == IF k \in {"W", "D", "TE", "TL", "BF", "BI"} THEN "TE" ELSE k
+TupleView(ks) == [j \in 1..Len(ks) |-> TupleKind(ks[j])]
 (* documents the scanner delivers before it fails (a syntax-error kind contributes a started document) *)
 RECURSIVE DocCount(_)
 DocCount(ks) == IF ks = <<>> THEN 0 ELSE IF SyntaxErr(ks[1]) THEN 1 ELSE 1 + DocCount(Tail(ks))
